@@ -36,6 +36,9 @@ pub struct Scenario {
     /// the warm-up searches are clock-limited too (with a budget they never reach), so that
     /// whatever the timer keeps between searches is exercised
     pub warmup_timed: bool,
+    /// via_uci only: other parameters on the clock-limited go line (" nodes 4000000000",
+    /// " mate 40", " movestogo 30"): none of them lifts the time limit
+    pub go_extra: String,
 }
 
 impl Scenario {
@@ -43,7 +46,7 @@ impl Scenario {
         json!({"fen": self.fen, "depth": self.depth, "key_seed": self.key_seed, "forced": self.forced,
             "cost_node_ns": self.cost_node_ns, "cost_read_ns": self.cost_read_ns, "limit_ms": self.limit_ms,
             "stalls": self.stalls.iter().map(|(a, b)| json!([a, b])).collect::<Vec<_>>(),
-            "via_uci": self.via_uci, "warmup_depths": self.warmup_depths, "warmup_timed": self.warmup_timed, "clocked": self.clocked})
+            "via_uci": self.via_uci, "warmup_depths": self.warmup_depths, "warmup_timed": self.warmup_timed, "clocked": self.clocked, "go_extra": self.go_extra})
     }
     pub fn from_json(v: &Value) -> Option<Scenario> {
         Some(Scenario {
@@ -64,6 +67,7 @@ impl Scenario {
                 .map(|a| a.iter().filter_map(|x| x.as_u64().map(|d| d as u8)).collect())
                 .unwrap_or_default(),
             warmup_timed: v["warmup_timed"].as_bool().unwrap_or(false),
+            go_extra: v["go_extra"].as_str().unwrap_or("").to_string(),
             clocked: v["clocked"].as_bool().unwrap_or(false),
         })
     }
@@ -124,16 +128,16 @@ pub fn run_scenario(bench: &mut Bench, sc: &Scenario) -> ScenarioOutcome {
             // (W - 5000) / 25 is the engine's allocation today; whatever it allocates, it has
             // to arm it before it starts working
             let w = ms.saturating_mul(25).saturating_add(5000);
-            st.push_line(&format!("go wtime {} btime {} winc 0 binc 0", w, w));
+            st.push_line(&format!("go wtime {} btime {} winc 0 binc 0{}", w, w, sc.go_extra));
         } else if sc.depth < 64 {
             // both orders occur
             if sc.key_seed % 2 == 0 {
-                st.push_line(&format!("go depth {} movetime {}", sc.depth, ms));
+                st.push_line(&format!("go depth {} movetime {}{}", sc.depth, ms, sc.go_extra));
             } else {
-                st.push_line(&format!("go movetime {} depth {}", ms, sc.depth));
+                st.push_line(&format!("go movetime {} depth {}{}", ms, sc.depth, sc.go_extra));
             }
         } else {
-            st.push_line(&format!("go movetime {}", ms));
+            st.push_line(&format!("go movetime {}{}", ms, sc.go_extra));
         }
         st.push_line("quit");
         let proc_ = Proc::start(st, None);
@@ -330,9 +334,15 @@ pub fn replay_value(v: &Value) -> Vec<Violation> {
 pub fn shrink_value(v: &Value) -> Vec<Value> {
     let Some(sc) = Scenario::from_json(v) else { return vec![] };
     let mut out = vec![];
+    if !sc.go_extra.is_empty() {
+        let mut n = sc.clone();
+        n.go_extra = String::new();
+        out.push(n.to_json());
+    }
     if sc.via_uci {
         let mut n = sc.clone();
         n.via_uci = false;
+        n.go_extra = String::new();
         out.push(n.to_json());
     }
     if !sc.warmup_depths.is_empty() {
@@ -499,6 +509,7 @@ pub fn run(ctx: &Ctx) -> i32 {
                 via_uci: false,
                 warmup_depths: vec![],
                 warmup_timed: false,
+                go_extra: String::new(),
                 clocked: false,
             };
             // (a) forced expiry: dense over the first reads, then log-uniform up to 20 000
@@ -515,6 +526,9 @@ pub fn run(ctx: &Ctx) -> i32 {
                 s.depth = *rng.pick(&[1u8, 2, 3, 64, 64]);
                 if rng.chance(1, 6) {
                     s.via_uci = true;
+                    if rng.chance(1, 3) {
+                        s.go_extra = rng.pick(&[" nodes 4000000000", " nodes 4000000000", " mate 40", " movestogo 30"]).to_string();
+                    }
                     // a depth cap far beyond what the budget allows, next to the clock
                     if rng.chance(1, 2) {
                         s.depth = *rng.pick(&[20u8, 40, 63]);
@@ -542,6 +556,12 @@ pub fn run(ctx: &Ctx) -> i32 {
                         s.depth = if rng.chance(1, 2) { 64 } else { (k as u8 + 1).max(1) };
                         if rng.chance(1, 6) {
                             s.via_uci = true;
+                            if rng.chance(1, 3) {
+                                s.go_extra = rng.pick(&[" nodes 4000000000", " nodes 4000000000", " mate 40", " movestogo 30"]).to_string();
+                            }
+                    if rng.chance(1, 3) {
+                        s.go_extra = rng.pick(&[" nodes 4000000000", " nodes 4000000000", " mate 40", " movestogo 30"]).to_string();
+                    }
                         }
                         scs.push(s);
                         res.probes.add("expiry_points_late_in_an_iteration", 1);
@@ -563,6 +583,9 @@ pub fn run(ctx: &Ctx) -> i32 {
                 }
                 if rng.chance(1, 6) {
                     s.via_uci = true;
+                    if rng.chance(1, 3) {
+                        s.go_extra = rng.pick(&[" nodes 4000000000", " nodes 4000000000", " mate 40", " movestogo 30"]).to_string();
+                    }
                     if rng.chance(1, 2) {
                         s.depth = *rng.pick(&[20u8, 40, 63]);
                     } else if rng.chance(1, 2) {
@@ -598,6 +621,9 @@ pub fn run(ctx: &Ctx) -> i32 {
                 res.probes.merge(&o.probes);
                 res.faults.merge(&o.faults);
                 res.probes.max("max_overshoot_nodes", o.overshoot);
+                if !sc.go_extra.is_empty() {
+                    res.probes.add("via_uci_runs_with_other_go_parameters", 1);
+                }
                 if sc.via_uci {
                     res.probes.add("via_uci_runs", 1);
                 }
